@@ -527,6 +527,13 @@ func (e *Engine) globalObj(st *State, g *ssa.Global) int {
 		e.gheap = map[int]Value{}
 	}
 	e.gheap[id] = zeroValue(g.Type().(*types.Pointer).Elem())
+	// selected variables of foreign packages (error sentinels) get a modelled initial value instead of a silent zero
+	for _, f := range foreignGlobalInit {
+		if v, ok := f(e, g); ok {
+			e.gheap[id] = v
+			break
+		}
+	}
 	return id
 }
 
